@@ -28,13 +28,17 @@ class MetaDataProvider:
         """
         return columns of given table.
         """
-        if (key := str(table)) in self._session_metadata:
+        from_session = (key := str(table)) in self._session_metadata
+        if from_session:
             cols = self._session_metadata[key]
         else:
             cols = self._get_table_columns(str(table.schema), table.raw_name, **kwargs)
         columns = []
         for col in cols:
             column = Column(col)
+            if from_session:
+                # registered from columns of the script: normalised already, again would lower-case a quoted name
+                column.raw_name = col
             column.parent = table
             columns.append(column)
         return columns
